@@ -106,6 +106,19 @@ def gen_case(rng, i, tier):
     case["metric"] = "latlon" if latlon else "planar"
     if not latlon and rng.random() < 0.2:
         case["pre_trace"] = gen.gen_trace(rng, case["map"], k=rng.randint(1, 9))
+    if rng.random() < 0.04:
+        # the shortest trace there is, with start candidates that exist but all fail a cut-off, at DEBUG (where they are kept)
+        case["trace"] = case["trace"][:1]
+        u_ = 30.0 if latlon else 1.0
+        cfg["max_dist_init"] = rng.choice([5.0, 20.0]) * u_
+        if rng.random() < 0.5:
+            cfg["max_dist"] = rng.choice([0.01, 0.05]) * u_
+            q_ = case["trace"][0]
+            case["trace"] = [[q_[0] + (0.0003 if latlon else 0.3), q_[1] + (0.0002 if latlon else 0.2)]]
+        else:
+            cfg["min_prob_norm"] = 0.999999
+        case["debug"] = True
+        case["cls"] = "one_observation_all_stopped"
     return case
 
 
